@@ -757,6 +757,103 @@ def make_zero_case(rng):
             'fac': r.random() < 0.3, 'flavour': 'zero0'}
 
 
+def make_cancel_case(rng):
+    """Size-1 outputs of an array input whose gradient entries cancel exactly (the response to a
+    perturbation of *all* entries at once is 0 although the entries are not): differences of
+    entries, telescoping sums, zero-sum weights, symmetric combinations at chosen points.
+    has_diag_partials True/False; one of the two points may be non-cancelling so that stale
+    values from the other linearization would show."""
+    r = rng
+    n = r.choice([2, 3, 3, 4, 4])
+    S = (n,)
+    hd = r.random() < 0.65
+    X, W, A = ('var', 'x0'), ('var', 'x1'), ('var', 'x2')
+    ix = lambda k: ('idx', X, k)
+    fix = {}          # input name -> (point, values) forced after the random draw
+
+    def halves(k, lo=-6, hi=6, nonzero=True):
+        out = []
+        while len(out) < k:
+            q = Fraction(r.randint(lo, hi), 2)
+            if q != 0 or not nonzero:
+                out.append(q)
+        return out
+
+    def t_diff():
+        i, j = r.sample(range(n), 2)
+        return ('bin', '-', ix(i), ix(j))
+
+    def t_tele():
+        return ('sum', ('diff', X))
+
+    def t_range():
+        return ('bin', '-', ('red', 'max', X), ('red', 'min', X))
+
+    def t_mean():
+        return ('bin', '-', ('sum', X), ('bin', '*', ('lit', float(n)), ix(r.randrange(n))))
+
+    def t_dot():
+        w = halves(n - 1)
+        last = -sum(w)
+        if last == 0:
+            w[0] += 1
+            last = -sum(w)
+        fix['x1'] = (r.randrange(2), w + [last])
+        return (r.choice(['dot', 'inner']), X, W)
+
+    def t_sq():
+        k = r.randrange(n)
+        while True:
+            xs = halves(n)
+            xs[k] = Fraction(r.choice([1, 2, -1, -2, 4]))
+            c = sum(xs) / xs[k]
+            if c != 0 and c.denominator <= 8 and len(set(xs)) >= 1:
+                break
+        fix['x0'] = (r.randrange(2), xs)
+        return ('bin', '-', ('sum', ('powi', X, 2)),
+                ('bin', '*', ('lit', float(c)), ('powi', ix(k), 2)))
+
+    def t_weights():
+        return ('sum', ('bin', '*', X, ('bin', '-', ('mk', 'arange', n),
+                                       ('lit', (n - 1) / 2.0))))
+
+    def t_scaled():
+        return ('bin', '*', A, t_diff())
+
+    pool = [t_diff, t_diff, t_tele, t_range, t_mean, t_dot, t_sq, t_weights, t_scaled]
+    first = r.choice(pool)
+    outs = [{'name': 'y0', 'shape': [1], 'expr': first(), 'units': None}]
+    n_out = r.choice([1, 2, 2, 3])
+    for k in range(1, n_out):
+        x = r.random()
+        if x < 0.5:
+            # an array/array pair next to it (diagonal under has_diag_partials)
+            e = r.choice([('bin', '*', X, A), ('powi', X, 2), ('call1', 'sin', X),
+                          ('bin', '+', ('bin', '*', X, X), A), ('bin', '*', X, W)])
+            outs.append({'name': 'y%d' % k, 'shape': [n], 'expr': e, 'units': None})
+        else:
+            cand = [t for t in pool if t not in (t_dot, t_sq) or t is first]
+            t = r.choice([t for t in cand if not (t in (t_dot, t_sq) and t is first)] or [t_diff])
+            outs.append({'name': 'y%d' % k, 'shape': [1], 'expr': t(), 'units': None})
+    used = sorted(set(v for o in outs for v in used_vars(o['expr'])))
+    shapes = {'x0': S, 'x1': S, 'x2': (1,)}
+    sizes = [size_of(shapes[v]) for v in used]
+    v0, v1 = draw_values(r, sizes), draw_values(r, sizes)
+    ins = []
+    for name, a, b in zip(used, v0, v1):
+        vals = [a, b]
+        if name in fix:
+            pt, q = fix[name]
+            vals[pt] = [rat(z) for z in q]
+        ins.append({'name': name, 'shape': list(shapes[name]), 'vals': vals, 'units': None,
+                    'src_units': None, 'factor': 1.0})
+    x = r.random()
+    return {'ins': ins, 'outs': outs, 'hd': hd,
+            'do_coloring': None if x < 0.5 else (x < 0.8), 'manual': None,
+            'sbc': r.choice(['none', 'none', 'var']), 'comp_units': None,
+            'fac': r.random() < 0.3, 'flavour': 'cancel'}
+
+
 def hd_sizes_ok(case):
     """Documented precondition of has_diag_partials: all arrays of size > 1 have one size."""
     sz = {size_of(v['shape']) for v in case['ins']} | {size_of(o['shape']) for o in case['outs']}
@@ -766,7 +863,8 @@ def hd_sizes_ok(case):
 def gen_valid(rng, flavour=None, tries=400):
     for _ in range(tries):
         try:
-            case = make_zero_case(rng) if flavour == 'zero0' else make_case(rng, flavour)
+            case = (make_zero_case(rng) if flavour == 'zero0' else
+                    make_cancel_case(rng) if flavour == 'cancel' else make_case(rng, flavour))
             if case['hd'] and not hd_sizes_ok(case):
                 continue
             for o in case['outs']:
@@ -923,6 +1021,8 @@ class C14(Property):
             flavour = 'hd_nonelem' if x < 0.04 else ('flip' if x < 0.08 else None)
             if i < nz:
                 flavour = 'zero0'      # targeted family first: zero-valued inputs at the first point
+            elif i < 2 * nz:
+                flavour = 'cancel'     # size-1 outputs whose gradient row sums to exactly zero
             case = gen_valid(rng, flavour)
             if case is not None:
                 yield case
